@@ -652,6 +652,7 @@ def extract_arm(repo, header, ex):
     proofs = []
     cur = None
     bind_name = None
+    closures = {}
     for l in lines[1:]:
         if not l:
             continue
@@ -662,6 +663,14 @@ def extract_arm(repo, header, ex):
         if bm_:
             bind_name = bm_.group(1)
             cur = None
+            continue
+        cm_ = re.match(r'^closure\s+(\d+)\s*:\s*(.*)$', l)
+        if cm_:
+            closures[int(cm_.group(1))] = cm_.group(2) + '\n'
+            cur = ('closure', int(cm_.group(1)))
+            continue
+        if isinstance(cur, tuple) and cur[0] == 'closure' and not lm and not nm and not pm:
+            closures[cur[1]] += l + '\n'
             continue
         if pm:
             proofs.append([pm.group(1), pm.group(2) + '\n'])
@@ -721,6 +730,7 @@ def extract_arm(repo, header, ex):
     for pos, text in sorted(inserts, key=lambda x: x[0][1], reverse=True):
         _, a, b = pos
         out = out[:a] + text + out[b:]
+    out = _apply_closures(out, closures, ex, label)
     out = _apply_loops(out, loops, False, proofs, ex, label)
     ex.items.append(dict(kind='match-arm', source=rel, selector=' :: '.join(sels), sha=_sha(block), name=f'{name}_arm'))
     return f'/*@@BODY {name}_arm*/' + out + '/*@@END*/'
